@@ -1,5 +1,6 @@
 import Pendulum.Proofs.Range
 import Pendulum.Proofs.RangeAdd
+import Pendulum.Proofs.RangeCal
 /-! # C19 — IntervalPD.range() steps from the start without drift and stays inside
 
 `Range.range step inside amount fuel` is the loop of `Interval.range` (Model/Range.lean): `step i` =
@@ -257,5 +258,137 @@ def epS : EP := ⟨⟨.named zP, 1000000, false⟩, 1, true⟩
 def epE : EP := ⟨⟨.named zP, 1006500, false⟩, 1, true⟩
 def xV : V := ⟨.named zP, 1006000, true⟩
 example : containsIv (IntervalPD.mk false epS epE false) 1 xV = true ∧ ¬ (xV.instant ≤ epE.v.instant) := by decide
+
+/-! ### calendar units (`years`, `months`) on naive `DateTime`s and `Date`s, and the inverted direction
+
+`dir iv` = −1 for an inverted, non-absolute interval (the loop calls `subtract` and compares with `>=`), +1 otherwise;
+`stepOf iv unit i = addUnit iv.start unit (dir iv · i)`. The theorems below hold for **every** `Iv` (either direction,
+absolute or not); `mk_dir_start` reads `dir` and `start` for an interval built by `Interval(a, b, absolute)`.
+`AddDur.shiftMonths w n` is the wall value `n` months from `w` with the day of month of `w` itself clamped to the target
+month (`cal_step_fields`), so "no drift" includes the end-of-month clamp: Jan 31 → Feb 28/29 → Mar 31 → Apr 30 … -/
+
+/-- direction and start of `Interval(a, b, absolute)` -/
+theorem mk_dir_start (rs : Bool) (a b : EP) (ab : Bool) :
+    dir (IntervalPD.mk rs a b ab) = (if !ab && gtEP a b then -1 else 1) ∧
+    (IntervalPD.mk rs a b ab).start = (if ab && gtEP a b then b else a) := ⟨rfl, rfl⟩
+
+/-- a calendar step in civil fields: (year, month) by month-index arithmetic `12·y + (m − 1) + n`, day =
+    min(day of the **start**, length of the target month), time of day kept — for every integer `n`, any year -/
+theorem cal_step_fields (w n : Int) :
+    AddDur.wallToFields (AddDur.shiftMonths w n) =
+      ((AddDur.monthIdx w + n) / 12, (AddDur.monthIdx w + n) % 12 + 1,
+       min (AddDur.wallToFields w).2.2.1
+         (Cal.daysInMonth ((AddDur.monthIdx w + n) / 12) ((AddDur.monthIdx w + n) % 12 + 1)),
+       (AddDur.wallToFields w).2.2.2) := AddDur.shiftMonths_fields w n
+
+/-- monotonicity of `add_duration` in the month count: more months from the same start ⇒ at least one day later,
+    whatever the start day (29–31 included) -/
+theorem cal_step_strict_mono (w n n' : Int) (h : n < n') :
+    AddDur.shiftMonths w n + AddDur.DAY ≤ AddDur.shiftMonths w n' := AddDur.shiftMonths_lt w n n' h
+
+/-- **full strength, `range("years"|"months", amount)` on a naive `DateTime` or a `Date`, either direction**: every
+    yielded value is `start.add(unit = ±k·amount)` = the month shift computed from the start (clamp included), never an
+    exception -/
+theorem cal_range_nth (iv : Iv) (hz : iv.start.v.z = .naive) (unit : Nat) (hu : unit ≤ 1) (amount : Int)
+    (fuel k : Nat) (r : Except Err V) (h : (rangeIv iv unit amount fuel)[k]? = some r) :
+    ∃ v, r = .ok v ∧ v.z = .naive ∧
+      v.w = AddDur.shiftMonths iv.start.v.w (monthsOf unit (dir iv * (amount * k))) := by
+  obtain ⟨h1, h2⟩ := rangeIv_nth_inside _ unit amount fuel k r h
+  rw [stepOf_dir] at h1
+  cases r with
+  | error e => simp [insideOf] at h2
+  | ok v =>
+    obtain ⟨e1, e2⟩ := addUnit_cal_naive iv.start unit _ hz hu v h1.symm
+    exact ⟨v, rfl, e2, e1⟩
+
+/-- … hence strictly increasing (forward) / strictly decreasing (inverted) wall clocks for `amount ≥ 1`, consecutive
+    values at least a day apart -/
+theorem cal_range_strict_mono (iv : Iv) (hz : iv.start.v.z = .naive) (unit : Nat) (hu : unit ≤ 1) (amount : Int)
+    (ham : 1 ≤ amount) (fuel i j : Nat) (hij : i < j) (ri rj : Except Err V)
+    (hi : (rangeIv iv unit amount fuel)[i]? = some ri) (hj : (rangeIv iv unit amount fuel)[j]? = some rj) :
+    ∃ vi vj, ri = .ok vi ∧ rj = .ok vj ∧ dir iv * vi.w + AddDur.DAY ≤ dir iv * vj.w := by
+  obtain ⟨vi, e1, _, w1⟩ := cal_range_nth iv hz unit hu amount fuel i ri hi
+  obtain ⟨vj, e2, _, w2⟩ := cal_range_nth iv hz unit hu amount fuel j rj hj
+  refine ⟨vi, vj, e1, e2, ?_⟩
+  have hk : amount * (i : Int) + 1 ≤ amount * (j : Int) := by
+    have : (i : Int) + 1 ≤ j := by omega
+    have := Int.mul_le_mul_of_nonneg_left this (by omega : 0 ≤ amount)
+    rw [Int.mul_add, Int.mul_one] at this; omega
+  rw [w1, w2]
+  generalize amount * (i : Int) = p at hk ⊢
+  generalize amount * (j : Int) = q at hk ⊢
+  have hu' : unit = 0 ∨ unit = 1 := by omega
+  rcases dir_cases iv with hd | hd <;> rw [hd]
+  · have := AddDur.shiftMonths_lt iv.start.v.w (monthsOf unit (1 * p)) (monthsOf unit (1 * q)) (by
+      unfold monthsOf; rcases hu' with rfl | rfl <;> simp <;> omega)
+    omega
+  · have := AddDur.shiftMonths_lt iv.start.v.w (monthsOf unit (-1 * q)) (monthsOf unit (-1 * p)) (by
+      unfold monthsOf; rcases hu' with rfl | rfl <;> simp <;> omega)
+    omega
+
+/-- **fixed-length units (weeks … microseconds) on a naive `DateTime`, either direction**: the k-th value is
+    `start ± k·amount·unit` exactly (`naive_range_nth` is the forward case) -/
+theorem naive_range_nth_dir (iv : Iv) (hz : iv.start.v.z = .naive) (hdt : iv.start.isDt = true)
+    (unit : Nat) (hu : 2 ≤ unit ∧ unit ≤ 7) (amount : Int)
+    (hw : AddDur.minWall ≤ iv.start.v.w ∧ iv.start.v.w ≤ AddDur.maxWall)
+    (fuel k : Nat) (r : Except Err V) (h : (rangeIv iv unit amount fuel)[k]? = some r) :
+    ∃ v, r = .ok v ∧ v.z = .naive ∧ v.w = iv.start.v.w + dir iv * (amount * k) * unitUs unit := by
+  obtain ⟨h1, h2⟩ := rangeIv_nth_inside _ unit amount fuel k r h
+  rw [stepOf_dir] at h1
+  cases r with
+  | error e => simp [insideOf] at h2
+  | ok v =>
+    obtain ⟨e1, e2⟩ := addUnit_naive iv.start unit _ hz hdt hu hw v h1.symm
+    exact ⟨v, rfl, e2, e1⟩
+
+/-- … strictly increasing forward, strictly decreasing for an inverted interval (`amount ≥ 1`) -/
+theorem naive_range_strict_mono_dir (iv : Iv) (hz : iv.start.v.z = .naive) (hdt : iv.start.isDt = true)
+    (unit : Nat) (hu : 2 ≤ unit ∧ unit ≤ 7) (amount : Int) (ham : 1 ≤ amount)
+    (hw : AddDur.minWall ≤ iv.start.v.w ∧ iv.start.v.w ≤ AddDur.maxWall) (fuel i j : Nat) (hij : i < j)
+    (ri rj : Except Err V)
+    (hi : (rangeIv iv unit amount fuel)[i]? = some ri) (hj : (rangeIv iv unit amount fuel)[j]? = some rj) :
+    ∃ vi vj, ri = .ok vi ∧ rj = .ok vj ∧ dir iv * vi.w < dir iv * vj.w := by
+  obtain ⟨vi, e1, _, w1⟩ := naive_range_nth_dir iv hz hdt unit hu amount hw fuel i ri hi
+  obtain ⟨vj, e2, _, w2⟩ := naive_range_nth_dir iv hz hdt unit hu amount hw fuel j rj hj
+  refine ⟨vi, vj, e1, e2, ?_⟩
+  have hU : 1 ≤ unitUs unit := by
+    have : unit = 2 ∨ unit = 3 ∨ unit = 4 ∨ unit = 5 ∨ unit = 6 ∨ unit = 7 := by omega
+    rcases this with rfl | rfl | rfl | rfl | rfl | rfl <;> decide
+  have hk : amount * (i : Int) + 1 ≤ amount * (j : Int) := by
+    have : (i : Int) + 1 ≤ j := by omega
+    have := Int.mul_le_mul_of_nonneg_left this (by omega : 0 ≤ amount)
+    rw [Int.mul_add, Int.mul_one] at this; omega
+  have hm := Int.mul_le_mul_of_nonneg_right hk (by omega : 0 ≤ unitUs unit)
+  rw [Int.add_mul, Int.one_mul] at hm
+  rw [w1, w2]
+  generalize amount * (i : Int) = p at hm ⊢
+  generalize amount * (j : Int) = q at hm ⊢
+  rcases dir_cases iv with hd | hd <;> rw [hd]
+  · simp only [Int.one_mul]; omega
+  · have e1 : -1 * p * unitUs unit = -(p * unitUs unit) := by rw [Int.mul_assoc]; omega
+    have e2 : -1 * q * unitUs unit = -(q * unitUs unit) := by rw [Int.mul_assoc]; omega
+    rw [e1, e2]; omega
+
+/-! non-vacuity of the calendar-unit / inverted theorems (naive `DateTime`s 2020-01-31T12:00 and 2020-06-01T00:00;
+`Date`s 2020-02-29 and 2025-01-01) -/
+def cA : EP := ⟨⟨.naive, 1580472000000000, false⟩, 0, true⟩
+def cB : EP := ⟨⟨.naive, 1590969600000000, false⟩, 0, true⟩
+def cD1 : EP := ⟨⟨.naive, 1582934400000000, false⟩, 0, false⟩
+def cD2 : EP := ⟨⟨.naive, 1735689600000000, false⟩, 0, false⟩
+def fieldsOf (l : List (Except Err V)) : List (Int × Int × Int × Int) := (walls l).map AddDur.wallToFields
+/-- monthly from Jan 31: Feb 29, Mar 31, Apr 30, May 31 — the clamp never sticks -/
+example : fieldsOf (rangeIv (IntervalPD.mk false cA cB false) 1 1 10) =
+    [(2020, 1, 31, 43200000000), (2020, 2, 29, 43200000000), (2020, 3, 31, 43200000000), (2020, 4, 30, 43200000000),
+     (2020, 5, 31, 43200000000)] := by decide +kernel
+/-- the inverted interval walks back from its own start: Jun 1, May 1, …, Feb 1; `dir` = −1 -/
+example : fieldsOf (rangeIv (IntervalPD.mk false cB cA false) 1 1 10) =
+    [(2020, 6, 1, 0), (2020, 5, 1, 0), (2020, 4, 1, 0), (2020, 3, 1, 0), (2020, 2, 1, 0)] ∧
+    dir (IntervalPD.mk false cB cA false) = -1 ∧ dir (IntervalPD.mk false cB cA true) = 1 := by decide +kernel
+/-- `Date`s, every second year from Feb 29: 2022-02-28, then 2024-02-29 again -/
+example : fieldsOf (rangeIv (IntervalPD.mk false cD1 cD2 false) 0 2 10) =
+    [(2020, 2, 29, 0), (2022, 2, 28, 0), (2024, 2, 29, 0)] := by decide +kernel
+/-- inverted, 50-day steps -/
+example : walls (rangeIv (IntervalPD.mk false cB cA false) 3 50 10) =
+    [1590969600000000, 1586649600000000, 1582329600000000] := by decide +kernel
 
 end Pendulum.Props.C19
